@@ -51,21 +51,28 @@ func NewServer(config *ServerConfig, mux *EnvelopeMux, listeners ...BoundListene
 // This is a blocking call which always returns a non nil error.
 // In case of a graceful closing, the returned error is ErrServerClosed.
 func (srv *Server) ListenAndServe() error {
+	// The start-up holds the mutex, so that a concurrent Close either finds the
+	// server not listening yet or finds all of its listeners started.
+	srv.mu.Lock()
+
 	if srv.shutdown != nil {
+		srv.mu.Unlock()
 		return errors.New("server already listening")
 	}
 
-	ctx, cancel := context.WithCancel(context.Background())
-	srv.shutdown = cancel
-
 	if len(srv.listeners) == 0 {
+		srv.mu.Unlock()
 		return errors.New("no listeners found")
 	}
 
-	eg, ctx := errgroup.WithContext(ctx)
+	srvCtx, cancel := context.WithCancel(context.Background())
+	srv.shutdown = cancel
+
+	eg, ctx := errgroup.WithContext(srvCtx)
 
 	for _, l := range srv.listeners {
 		if err := l.Listener.Listen(ctx, l.Addr); err != nil {
+			srv.mu.Unlock()
 			return fmt.Errorf("listen error: %w", err)
 		}
 
@@ -81,13 +88,17 @@ func (srv *Server) ListenAndServe() error {
 		return nil
 	})
 
+	srv.mu.Unlock()
+
 	err := eg.Wait()
 
 	// No transport is queued anymore at this point, so
 	// close the ones that were accepted but not served.
 	srv.closeQueuedTransports()
 
-	if errors.Is(err, ctx.Err()) {
+	// A listener may report its own "closed" error before the
+	// context error, so check if the server was closed.
+	if srvCtx.Err() != nil || errors.Is(err, ctx.Err()) {
 		return ErrServerClosed
 	}
 	return err
